@@ -230,7 +230,7 @@ impl BinaryDeserializer for DeduplicatedString {
     fn deserialize(context: &mut DeserializationContext<'_>) -> Result<Self> {
         let count_or_id = context.read_var_i32()?;
         if count_or_id < 0 {
-            let id = StringId(-count_or_id);
+            let id = StringId(count_or_id.wrapping_neg()); // i32::MIN stays negative and is never a known id
             match context.state().get_string_by_id(id) {
                 Some(s) => Ok(DeduplicatedString(s.to_string())),
                 None => Err(Error::InvalidStringId(id)),
@@ -248,7 +248,15 @@ impl BinaryDeserializer for Duration {
     fn deserialize(context: &mut DeserializationContext<'_>) -> Result<Self> {
         let seconds = context.read_u64()?;
         let nanos = context.read_u32()?;
-        Ok(Duration::new(seconds, nanos))
+        // Duration::new panics if the carry from the nanoseconds overflows the seconds
+        let seconds = seconds
+            .checked_add((nanos / 1_000_000_000) as u64)
+            .ok_or_else(|| {
+                Error::DeserializationFailure(format!(
+                    "Failed to deserialize Duration: {seconds} seconds and {nanos} nanoseconds overflow"
+                ))
+            })?;
+        Ok(Duration::new(seconds, nanos % 1_000_000_000))
     }
 }
 
